@@ -17,22 +17,18 @@ type GYearMonth struct {
 var _ objecttypes.Value = GYearMonth{}
 
 func MapGYearMonth(lexicalForm string) (GYearMonth, error) {
-	lexicalForm = xsdutil.WhiteSpaceCollapse(lexicalForm)
-
-	for _, layout := range []string{
+	parsed, layout, ok := parseTimeLexicalForm(xsdutil.WhiteSpaceCollapse(lexicalForm), gYearMonthLexicalRE,
 		"2006-01",
 		"2006-01Z07:00",
-	} {
-		parsed, err := time.Parse(layout, lexicalForm)
-		if err == nil {
-			return GYearMonth{
-				Time:   parsed,
-				Layout: layout,
-			}, nil
-		}
+	)
+	if !ok {
+		return GYearMonth{}, rdf.ErrLiteralLexicalFormNotValid
 	}
 
-	return GYearMonth{}, rdf.ErrLiteralLexicalFormNotValid
+	return GYearMonth{
+		Time:   parsed,
+		Layout: layout,
+	}, nil
 }
 
 func (v GYearMonth) AsObjectValue() rdf.ObjectValue {
